@@ -446,6 +446,10 @@ func (g *gen) pathItem(doc string, ord int) map[string]interface{} {
 			rs["500"] = g.resp(doc, -1)
 			rs["201"] = g.resp(doc, -1)
 		}
+		if g.r.Intn(3) == 0 {
+			// a status code few documents use (a table of the usual ones would not know it)
+			rs[[]string{"207", "226", "299", "418", "422", "429", "451", "507", "599", "100"}[g.r.Intn(10)]] = g.resp(doc, -1)
+		}
 		if g.r.Intn(5) == 0 {
 			g.uniq++
 			rs["x-Resp-Note"] = fmt.Sprintf("n%d", g.uniq) // vendor extension of the responses object
